@@ -27,6 +27,10 @@ C12Cases ==
   (* module, other version numbers, the same words under :capability:), next to every subset of the real ones      *)
   \cup {[base |-> b, sid |-> "1", ns |-> n, shape |-> "ok", order |-> "before", extra |-> x] :
       b \in SUBSET Versions, n \in {"default", "prefixed"}, x \in Lookalikes}
+  (* what stands around the root element of a well-formed hello: XML declarations in their spellings, comments *)
+  \cup {[base |-> b, sid |-> s, ns |-> n, shape |-> "ok", order |-> o, extra |-> "none", decl |-> d] :
+      b \in {{"1.0"}, Versions, {"1.1"}}, s \in {"1", "zero"}, n \in {"default", "prefixed"}, o \in {"before", "after"},
+      d \in {"upper", "lower", "noenc", "standalone", "comment", "trailing-comment"}}
 
 (* C13: every subset of the information-preserving rewrites *)
 Rewrites == {"pfx", "ws", "pad", "cmt", "attr", "decl", "empt"}
@@ -43,7 +47,10 @@ Classes == {"plain", "lt", "gt", "amp", "quot", "apos", "delim", "nonascii", "sp
 C10Cases == {[param |-> p, classes |-> c] : p \in Params, c \in SeqsUpTo(Classes, K1)}
 
 (* C14: mutation scripts over the message templates: operator, one or two positions (eighths of the message) *)
-Templates == {"hello", "reply-ok", "reply-errors", "reply-data", "reply-bare", "load-ok", "load-errors"}
+Templates == {"hello", "reply-ok", "reply-errors", "reply-data", "reply-bare", "load-ok", "load-errors",
+              "reply-errors-ext", "reply-bare-error"}
+(* templates whose text is full of multi-byte characters: every byte position is cut / made invalid *)
+NonAscii == {"reply-nonascii", "reply-data-nonascii"}
 C14Cases ==
   {[tmpl |-> t, op |-> o, p |-> p, q |-> 0, seed |-> 0] : t \in Templates, o \in {"trunc", "flip20", "flip80", "flip01", "badutf8"}, p \in 0..8}
   \cup {[tmpl |-> t, op |-> "splice", p |-> p, q |-> q, seed |-> 0] : t \in Templates, p \in 0..7, q \in 1..8}
@@ -51,6 +58,8 @@ C14Cases ==
   \cup {[tmpl |-> t, op |-> "leaftext", p |-> p, q |-> q, seed |-> 0] : t \in Templates, p \in 0..8, q \in 0..7}
   \cup {[tmpl |-> "hello", op |-> "query", p |-> 0, q |-> q, seed |-> 0] : q \in 0..10}
   \cup {[tmpl |-> t, op |-> "random", p |-> 0, q |-> 0, seed |-> sd] : t \in Templates, sd \in 1..K1}
+  \cup {[tmpl |-> t, op |-> o, p |-> p, q |-> q, seed |-> 0] : t \in NonAscii, o \in {"trunc@", "bad@"}, p \in 0..10, q \in 0..63}
+  \cup {[tmpl |-> t, op |-> "deepat", p |-> p, q |-> q, seed |-> 0] : t \in {"reply-errors", "reply-errors-ext", "reply-data", "load-errors", "hello"}, p \in 0..4, q \in 0..2}
 
 Out ==
   CASE What = "c14" -> ToJson([cases |-> C14Cases])
